@@ -24,6 +24,7 @@ import (
 	"sync"
 	"time"
 
+	"github.com/llir/llvm/asm"
 	"github.com/llir/llvm/ir"
 
 	"verif/harness/mbt"
@@ -68,6 +69,10 @@ func with(base map[string]string, kv ...string) map[string]string {
 // gcacheClasses: classes predicted when the cached types of globals are nil or stale at print time.
 var gcacheClasses map[string]bool
 
+// pkgClasses: classes predicted when a printing helper shares package-level state (cell "pkg" of the
+// model; in a race report the cell is named other:<llir function that writes>).
+var pkgClasses map[string]bool
+
 func design(rep *mbt.Report, tier string) (asImpl, repaired map[string]bool) {
 	two := mix("{1, 2}", "{}", "{}")
 	mixed := mix("{1}", "{2}", "{3}")
@@ -95,6 +100,10 @@ func design(rep *mbt.Report, tier string) (asImpl, repaired map[string]bool) {
 		{label: "repaired, unfilled global caches, already printed", cfg: "PrintConc.cfg", consts: with(two, "GCachePrefilled", "FALSE")},
 		// repair candidate: AssignGlobalIDs computes the types while it holds Module.mu
 		{label: "repaired, unfilled global caches filled under Module.mu, fresh", cfg: "PrintConc.cfg", consts: with(two, "StartPrinted", "FALSE", "GCachePrefilled", "FALSE", "FillGlobalCachesUnderLock", "TRUE")},
+		// a printing helper that keeps scratch state in a package-level variable: racy and wrong text from
+		// the already-printed state too (and between printers of different modules: the cell belongs to no module)
+		{label: "sensitivity: package-level scratch state, already printed", cfg: "PrintConc.cfg", consts: with(two, "SharedScratch", "TRUE"), expect: []string{"NoRace", "TextEqual"}},
+		{label: "pkgstate classes, 2 module printers, printed", cfg: "PrintConcLog.cfg", consts: with(two, "SharedScratch", "TRUE"), collect: true},
 		// no deadlock between the two mutexes: every printer terminates
 		{label: "repaired, termination", cfg: "PrintConcLive.cfg", consts: with(two, "StartPrinted", "FALSE")},
 		// sensitivity: with a Lock removed the model must fail
@@ -125,6 +134,7 @@ func design(rep *mbt.Report, tier string) (asImpl, repaired map[string]bool) {
 	wg.Wait()
 	asImpl, repaired = map[string]bool{}, map[string]bool{}
 	gcacheClasses = map[string]bool{}
+	pkgClasses = map[string]bool{}
 	var results []map[string]interface{}
 	for _, j := range jobs {
 		t := j.res
@@ -156,6 +166,8 @@ func design(rep *mbt.Report, tier string) (asImpl, repaired map[string]bool) {
 					repaired[k] = true
 				} else if strings.HasPrefix(j.label, "unfilled") {
 					gcacheClasses[k] = true
+				} else if strings.HasPrefix(j.label, "pkgstate") {
+					pkgClasses[k] = true
 				}
 			}
 			if strings.HasPrefix(j.label, "sensitivity") && !strings.Contains(t.Output, `"typ"`) {
@@ -168,6 +180,10 @@ func design(rep *mbt.Report, tier string) (asImpl, repaired map[string]bool) {
 	rep.Extra["model_race_classes_as_implemented"] = keys(asImpl)
 	rep.Extra["model_race_classes_repaired_residual"] = keys(repaired)
 	rep.Extra["model_race_classes_unfilled_global_caches"] = keys(gcacheClasses)
+	rep.Extra["model_race_classes_package_level_state"] = keys(pkgClasses)
+	if len(pkgClasses) == 0 {
+		mbt.Infra("PrintConc: the model with package-level scratch state predicts no race class")
+	}
 	if len(gcacheClasses) == 0 {
 		mbt.Infra("PrintConc: the model with unfilled global caches predicts no race class")
 	}
@@ -261,6 +277,90 @@ func snapshotCaches(m *ir.Module) map[uintptr]cacheCell {
 	return out
 }
 
+// deepState flattens everything reachable from root -- exported and unexported
+// fields, through pointers, interfaces, slices and maps -- into path -> value,
+// with the owning struct type and field of every leaf. Pointer identities are
+// part of the state (a replaced object is a change). Mutexes are left out.
+func deepState(root interface{}) (state, owner map[string]string) {
+	state, owner = map[string]string{}, map[string]string{}
+	seen := map[uintptr]bool{}
+	var walk func(v reflect.Value, path, own string, depth int)
+	walk = func(v reflect.Value, path, own string, depth int) {
+		if depth > 600 {
+			return
+		}
+		switch v.Kind() {
+		case reflect.Ptr:
+			if v.IsNil() {
+				state[path], owner[path] = "nil", own
+				return
+			}
+			state[path+"@"], owner[path+"@"] = fmt.Sprintf("%#x", v.Pointer()), own
+			if seen[v.Pointer()] {
+				return
+			}
+			seen[v.Pointer()] = true
+			walk(v.Elem(), path, own, depth+1)
+		case reflect.Interface:
+			if v.IsNil() {
+				state[path], owner[path] = "nil", own
+				return
+			}
+			walk(v.Elem(), path, own, depth+1)
+		case reflect.Struct:
+			t := v.Type()
+			if t.PkgPath() == "sync" {
+				return
+			}
+			for i := 0; i < v.NumField(); i++ {
+				walk(v.Field(i), path+"."+t.Field(i).Name, t.String()+"."+t.Field(i).Name, depth+1)
+			}
+		case reflect.Slice, reflect.Array:
+			if v.Kind() == reflect.Slice {
+				state[path+"#len"], owner[path+"#len"] = fmt.Sprint(v.Len()), own
+			}
+			for i := 0; i < v.Len(); i++ {
+				walk(v.Index(i), fmt.Sprintf("%s[%d]", path, i), own, depth+1)
+			}
+		case reflect.Map:
+			keys := v.MapKeys()
+			sort.Slice(keys, func(i, j int) bool { return fmt.Sprint(keys[i]) < fmt.Sprint(keys[j]) })
+			state[path+"#len"], owner[path+"#len"] = fmt.Sprint(len(keys)), own
+			for _, k := range keys {
+				walk(v.MapIndex(k), fmt.Sprintf("%s[%v]", path, k), own, depth+1)
+			}
+		case reflect.Bool:
+			state[path], owner[path] = fmt.Sprint(v.Bool()), own
+		case reflect.Int, reflect.Int8, reflect.Int16, reflect.Int32, reflect.Int64:
+			state[path], owner[path] = fmt.Sprint(v.Int()), own
+		case reflect.Uint, reflect.Uint8, reflect.Uint16, reflect.Uint32, reflect.Uint64, reflect.Uintptr:
+			state[path], owner[path] = fmt.Sprint(v.Uint()), own
+		case reflect.Float32, reflect.Float64:
+			state[path], owner[path] = fmt.Sprint(v.Float()), own
+		case reflect.String:
+			state[path], owner[path] = v.String(), own
+		}
+	}
+	walk(reflect.ValueOf(root), "m", "", 0)
+	return
+}
+
+// changedState lists, per owning struct field, how many leaves differ between two deep states.
+func changedState(before, after, owner map[string]string) map[string]int {
+	out := map[string]int{}
+	for k, a := range after {
+		if b, ok := before[k]; !ok || a != b {
+			out[owner[k]]++
+		}
+	}
+	for k := range before {
+		if _, ok := after[k]; !ok {
+			out["(removed) "+k]++
+		}
+	}
+	return out
+}
+
 // changedCaches lists, per owner type, the cells whose cached type was filled,
 // replaced or altered between two snapshots.
 func changedCaches(before, after map[uintptr]cacheCell) map[string]int {
@@ -322,11 +422,21 @@ func staticCaches(src modSource) (fail map[string]string, underLock map[string]i
 		return
 	}
 	s1 := snapshotCaches(m)
+	d1, _ := deepState(m)
 	if msg, p := mbt.Guard(func() { _ = m.String() }); p {
 		fail["C13|static|panic|"+kind] = src.Name + ": Module.String panics sequentially: " + mbt.Truncate(msg, 200)
 		return
 	}
 	s2 := snapshotCaches(m)
+	// anything else that a sequential print changed after the ID assignment -- in the module, its
+	// constants, types or metadata, exported or not -- was written with no mutex held
+	d2, own2 := deepState(m)
+	for k, n := range changedState(d1, d2, own2) {
+		if strings.HasSuffix(k, ".Typ") {
+			continue // reported below with the cache wording
+		}
+		fail["C13|static|state-written-by-unlocked-print|"+k+"|"+kind] = fmt.Sprintf("%s: a sequential Module.String changed %d values of field %s after the ID assignment: printing writes there while holding no mutex, so two concurrent printers race on it", src.Name, n, k)
+	}
 	underLock = changedCaches(s0, s1)
 	for k, n := range changedCaches(s1, s2) {
 		if notACache(k) {
@@ -414,8 +524,54 @@ func scenarios(tier string, seed int64) []scenario {
 	return out
 }
 
+const richSource = "parsed:rich"
+
+var richStatic []namedText
+
+// richScenarios: the rich texts printed by module printers from the never-printed
+// (freshly parsed) state with N = 2, 4, 8, and by module printers and the mix of
+// all entry points from the already-printed state.
+func richScenarios(tier string) []scenario {
+	var out []scenario
+	add := func(start, mix string, n int) {
+		out = append(out, scenario{Name: fmt.Sprintf("%s/%s/%s/N=%d", richSource, start, mix, n), Source: richSource, Tier: tier, Start: start, Mix: mix, N: n, K: 3, Rounds: 1})
+	}
+	for _, n := range []int{2, 4, 8} {
+		add("never-printed", "module", n)
+	}
+	add("already-printed", "module", 4)
+	add("already-printed", "mixed", 8)
+	for _, n := range []int{2, 8} {
+		out = append(out, scenario{Name: fmt.Sprintf("%s/rich-constants-only/already-printed/module/N=%d", richSource, n), Source: richSource, Tier: tier, Start: "already-printed", Mix: "module", N: n, K: 3, Rounds: 150})
+	}
+	if tier == "thorough" {
+		add("never-printed", "mixed", 8)
+		add("already-printed", "func+block", 6)
+		add("already-printed", "module", 8)
+	}
+	return out
+}
+
+// numberedStart: every ID has its final value when the goroutines are released: the module was
+// printed before, or a sequential print of a fresh copy performs no SetID at all (measured in the
+// child: parsed modules usually, but not those with declarations that have several unnamed parameters).
 func numberedStart(sc scenario) bool {
-	return strings.HasPrefix(sc.Source, "parsed:") || sc.Start == "already-printed"
+	if sc.Start == "already-printed" {
+		return true
+	}
+	if sc.FreshKnown {
+		return sc.FreshWrites == 0
+	}
+	return strings.HasPrefix(sc.Source, "parsed:")
+}
+
+// startLabel: races on state that has nothing to do with IDs (cell other:<function>) do not
+// depend on whether the IDs were assigned before.
+func startLabel(class string, sc scenario) string {
+	if strings.HasPrefix(class, "other:") {
+		return "any-start"
+	}
+	return idsLabel(sc)
 }
 
 func idsLabel(sc scenario) string {
@@ -456,6 +612,48 @@ func Run(tier, replay string) {
 		scs = scenarios(tier, mbt.Seed())
 	}
 
+	dir, err := os.MkdirTemp("", "verif-c13-")
+	if err != nil {
+		mbt.Infra("%v", err)
+	}
+	// rich module texts for the corpus scenarios (uses rep: before the design goroutine starts)
+	needRich := replay == ""
+	for i := range scs {
+		needRich = needRich || scs[i].Source == richSource
+	}
+	if needRich {
+		rich := richInputs(rep, tier)
+		// the hand-written, test-data and clang texts also go through the static write-during-print check
+		for _, it := range rich {
+			if !strings.HasPrefix(it.Name, "modules/") {
+				richStatic = append(richStatic, it)
+			}
+		}
+		richPath := filepath.Join(dir, "rich.json")
+		rb, _ := json.Marshal(rich)
+		if err := os.WriteFile(richPath, rb, 0o644); err != nil {
+			mbt.Infra("%v", err)
+		}
+		rep.Extra["rich_texts"] = len(rich)
+		if replay == "" {
+			scs = append(scs, richScenarios(tier)...)
+		}
+		// the hand-written module alone, printed very often by every goroutine (same module, heavy overlap)
+		onePath := filepath.Join(dir, "rich1.json")
+		ob, _ := json.Marshal(rich[:1])
+		if err := os.WriteFile(onePath, ob, 0o644); err != nil {
+			mbt.Infra("%v", err)
+		}
+		for i := range scs {
+			if scs[i].Source == richSource {
+				scs[i].Texts = richPath
+				if scs[i].Rounds > 1 {
+					scs[i].Texts = onePath
+				}
+			}
+		}
+	}
+
 	// (S) TLC on the design, concurrently with the start of the workload
 	var asImpl, residual map[string]bool
 	designDone := make(chan struct{})
@@ -470,11 +668,6 @@ func Run(tier, replay string) {
 	}()
 
 	// children, a few at a time (each uses up to 8 threads)
-	dir, err := os.MkdirTemp("", "verif-c13-")
-	if err != nil {
-		mbt.Infra("%v", err)
-	}
-	defer os.RemoveAll(dir)
 	outs := make([]childOutcome, len(scs))
 	sem := make(chan struct{}, 3)
 	var wg sync.WaitGroup
@@ -513,6 +706,22 @@ func Run(tier, replay string) {
 			}
 		}
 	}
+	if richStatic != nil {
+		for _, it := range richStatic {
+			it := it
+			if _, err := asm.ParseString(it.Name, it.Text); err != nil {
+				continue
+			}
+			fail, _, total := staticCaches(modSource{Name: "text:" + it.Name, Parsed: true, Build: func() *ir.Module {
+				m, _ := asm.ParseString(it.Name, it.Text)
+				return m
+			}})
+			rep.Count("static:text:"+it.Name, total > 0)
+			for k, v := range fail {
+				staticFail[k] = v
+			}
+		}
+	}
 	rep.Extra["caches_written_under_the_lock"] = underLockAll
 	if len(underLockAll) > 0 {
 		rep.Note("lazily cached types written by the ID assignment while it holds the mutex (safe among printers that take the lock; a lock-free reader next to a first print would race on them): %v", underLockAll)
@@ -521,7 +730,6 @@ func Run(tier, replay string) {
 		rep.Fail(mbt.Failure{Signature: sig, What: what, Case: map[string]string{"kind": "static"}})
 	}
 
-
 	observed := map[string]int{}
 	unclassified := 0
 	var rows []traceRow
@@ -529,11 +737,20 @@ func Run(tier, replay string) {
 	calls, setids := 0, 0
 	for _, o := range outs {
 		sc := o.sc
+		sc.FreshWrites, sc.FreshKnown = o.res.FreshWrites, o.crashed == ""
 		if o.crashed != "" {
 			os.RemoveAll(dir)
 			mbt.Infra("child %s failed: %s", sc.Name, o.crashed)
 		}
 		rep.Count("scenario:"+sc.Name, sc.N >= 2)
+		if sc.Source == richSource {
+			if o.res.Modules == 0 {
+				os.RemoveAll(dir)
+				mbt.Infra("scenario %s printed no module (%d texts skipped)", sc.Name, o.res.Skipped)
+			}
+			rep.Extra["rich_modules_printed_concurrently"] = o.res.Modules
+			rep.Extra["rich_texts_not_parsed_or_printed_sequentially"] = o.res.Skipped
+		}
 		calls += o.res.Calls
 		setids += o.res.SetIDs
 		caseOf := func(extra map[string]interface{}) map[string]interface{} {
@@ -559,12 +776,14 @@ func Run(tier, replay string) {
 			rep.Fail(mbt.Failure{Signature: "C13|race|unclassified|" + idsLabel(sc), What: "data race reported but a stack could not be restored: " + mbt.Truncate(o.races[0].Text, 600), Case: caseOf(nil)})
 		}
 		for k, r := range perClass {
-			observed[k+"|"+idsLabel(sc)]++
+			observed[k+"|"+startLabel(k, sc)]++
 			note := ""
 			if asImpl == nil {
 				note = ""
 			} else if gcacheClasses[k] {
 				note = " [predicted by the model when the cached type of a global is nil or stale at print time: operand printing writes it while holding no mutex; computing the types in AssignGlobalIDs under Module.mu cures it in the model]"
+			} else if i := strings.Index(k, "|"); strings.HasPrefix(k, "other:") && pkgClasses["pkg"+k[i:]] {
+				note = " [state outside the ID and cache cells, written while printing with no mutex held: the model's 'pkg' cell (SharedScratch) -- race and possibly wrong text from every start state]"
 			} else if !asImpl[k] {
 				note = " [a class the model does not predict]"
 			} else if residual[k] && !numberedStart(sc) {
@@ -573,7 +792,7 @@ func Run(tier, replay string) {
 				note = " [class of the write-always defect repaired by 4b95b3d (write only if changed): regression]"
 			}
 			rep.Fail(mbt.Failure{
-				Signature: "C13|race|" + k + "|" + idsLabel(sc),
+				Signature: "C13|race|" + k + "|" + startLabel(k, sc),
 				What:      fmt.Sprintf("%s: data race%s: %s", sc.Name, note, summarise(r)),
 				Case:      caseOf(map[string]interface{}{"report": mbt.Truncate(r.Text, 4000)}),
 			})
@@ -588,7 +807,7 @@ func Run(tier, replay string) {
 		for e, mm := range byEntry {
 			rep.Fail(mbt.Failure{
 				Signature: "C13|text|" + e + "|" + idsLabel(sc),
-				What:      fmt.Sprintf("%s: a concurrent %s print differs from the lone sequential call: %s", sc.Name, e, firstDiff(mm.Want, mm.Got)),
+				What:      fmt.Sprintf("%s: a concurrent %s print%s differs from the lone sequential call: %s", sc.Name, e, ofModule(mm.Module), firstDiff(mm.Want, mm.Got)),
 				Case:      caseOf(map[string]interface{}{"entry": e, "want": mbt.Truncate(mm.Want, 3000), "got": mbt.Truncate(mm.Got, 3000)}),
 			})
 		}
@@ -665,6 +884,13 @@ func Run(tier, replay string) {
 	rep.Exhaustive = false
 	os.RemoveAll(dir) // Finish exits the process: deferred calls do not run
 	rep.Finish()
+}
+
+func ofModule(name string) string {
+	if name == "" {
+		return ""
+	}
+	return " of " + name
 }
 
 func onlyUnclassified(o childOutcome) bool {
